@@ -136,6 +136,37 @@ def find_method(fb, cls, name, const=None):
     return fm(fb, cls, name, None, const)
 
 
+_LAYOUT = None
+
+
+def raw_byte_getter(val, node):
+    """`data[k]` in a validator(data, size), k constant: the name of the header getter that reads exactly that byte — a field the layout
+    oracle places at byte k, one byte wide, all 8 bits (that the getter reads this position is C12-R1's result) — else None."""
+    global _LAYOUT
+    x = strip_all_casts(node)
+    if x.get("k") != "subscript" or not val.params or strip_all_casts(x.get("base", {})).get("decl") != val.params[0]["decl"]:
+        return None
+    k = const_value(x.get("idx"))
+    if k is None:
+        return None
+    if _LAYOUT is None:
+        import json
+        import os
+        _LAYOUT = json.load(open(os.path.join(os.path.dirname(os.path.abspath(__file__)), "..", "spec", "layout.json")))
+    for row in _LAYOUT["classes"]:
+        if row["class"] == val.rec or row["class"] in getattr(val.fb, "bases_of", lambda r: [])(val.rec):
+            for f in row["fields"]:
+                if f["offset"] == k and f["bytes"] == 1 and f["lo"] == 0 and f["hi"] == 7:
+                    hdr = [c for c in val.fb.records if c in (row["class"] + "::Header", row["class"].rsplit("::", 1)[0] + "::CanPayloadBase::Header")]
+                    from cmpverif.accessors import header_view_record
+                    try:
+                        rec = header_view_record(val.fb, val.rec)
+                    except Broken:
+                        rec = None
+                    return (rec + "::get" + f["stem"]) if rec else None
+    return None
+
+
 def validator_facts(fb, val):
     """(K, bounded) for a static validator(data,size): K = guaranteed minimum size;
     bounded = {header getter callee name: True} for getters compared `<= size - sizeof(Header)`."""
@@ -175,6 +206,8 @@ def validator_facts(fb, val):
                     def syms(z):
                         if z.get("k") == "call" and "Header::get" in (callee_name(z) or ""):
                             return callee_name(z)
+                        if z.get("k") == "subscript":
+                            return raw_byte_getter(val, z)
                         return None
                     form = _linear(val, x, syms)
                     if form and len([k2 for k2 in form if k2 != 1]) == 1 and not narrowings(val, x, limit_bits=32):
@@ -189,6 +222,8 @@ def validator_facts(fb, val):
                         for c in walk(x):
                             if c.get("k") == "call" and "Header::get" in (callee_name(c) or ""):
                                 b.add((callee_name(c), const_value(yy["r"])))
+                            elif c.get("k") == "subscript" and raw_byte_getter(val, c):
+                                b.add((raw_byte_getter(val, c), const_value(yy["r"])))
         K = k if K is None else min(K, k)
         bounded = b if bounded is None else (bounded & b)
     return K, bounded
